@@ -385,7 +385,9 @@ def injection_texts(quick):
 # ============================================================ section writer
 HEAD = "HTTP/1.1 200 OK"
 DATA = {"w0": b"", "w1": b"a", "w3": b"bcd", "w2048": b"e" * 2048, "w65537": bytes(range(256)) * 256 + b"z"}
-OPS = ["w0", "w1", "w3", "w2048", "w65537", "send_headers", "set_eof", "eof0", "eof2"]
+import array as _array
+_MV = _array.array("I", [0x61626364, 0x65666768, 0x696a6b6c])      # 3 items, 12 bytes: len() != nbytes
+OPS = ["w0", "w1", "w3", "w2048", "w65537", "send_headers", "set_eof", "eof0", "eof2", "wmv", "eofmv"]
 MODES = ["identity", "chunked", "deflate", "gzip", "chunked+deflate", "chunked+gzip", "length4", "length2050", "length65540"]
 
 
@@ -438,6 +440,13 @@ class WSim:
             if op in DATA:
                 self.sync(self.w.write(DATA[op]))
                 self.written += DATA[op]
+            elif op == "wmv":
+                self.sync(self.w.write(memoryview(_MV)))        # a buffer whose items are wider than a byte
+                self.written += _MV.tobytes()
+            elif op == "eofmv":
+                self.sync(self.w.write_eof(memoryview(_MV)))
+                self.written += _MV.tobytes()
+                self.done = True
             elif op == "send_headers":
                 self.w.send_headers()
             elif op == "set_eof":
